@@ -1205,10 +1205,15 @@ impl CommandExecutor for DrawExecutor {
                 if parameters.len() != 2 {
                     return Err(anyhow::anyhow!("SetResolution command requires 2 argument"));
                 }
+                let old_resolution = self.get_resolution();
                 match parameters[0] {
                     0 => self.terminal_resolution = TerminalResolution::Low,
                     1 => self.terminal_resolution = TerminalResolution::Medium,
                     _ => return Err(anyhow::anyhow!("SetResolution unknown/unsupported argument: {}", parameters[0])),
+                }
+                if self.get_resolution() != old_resolution {
+                    // a real switch clears the screen; the pixel buffer has to match the new size
+                    self.set_resolution(buf, caret);
                 }
                 match parameters[1] {
                     0 => { // no change
